@@ -22,9 +22,11 @@ RULE = (
     "incl. two impulses on one compartment and a 2-compartment stimulus; 4 clamp requests incl. gate and synaptic state) to depth 1 on all "
     "three synapse-type orders x {t_max None, shorter, longer} x {stored, data_* fed} and depth 2 (quick) / 3 (thorough) on the order "
     "(I,T,I); each history is replayed on a real network and integrate's full output matrix is compared with the request-log reference; "
+    "every ordered pair (thorough: triple, with a further input afterwards) of same-kind input requests followed by delete_stimuli / "
+    "delete_clamps through a view that removes part of them (the survivors must keep acting on their own targets); "
     "a state is the canonical (recordings, externals) of the module; plus step_current vs its sample-wise definition on dyadic grids"
 )
-REQUIRED_COVER = ["stored_and_data_inputs_mixed", "edge_index_ne_rank_within_type", "two_stimuli_one_compartment", "compartments_with_different_area", "tmax_longer",
+REQUIRED_COVER = ["deleted_through_view_with_survivors", "stored_and_data_inputs_mixed", "edge_index_ne_rank_within_type", "two_stimuli_one_compartment", "compartments_with_different_area", "tmax_longer",
                   "tmax_shorter", "data_fed", "duplicate_record_dropped", "clamp_gate", "clamp_synaptic_state", "record_synaptic_state",
                   "record_channel_current", "step_current"]
 ASSUMPTIONS = [
@@ -47,6 +49,8 @@ VIEWS = {
     "B": [(0, 0, 0), (0, 0, 1), (0, 1, 0)],
     "C": [(2, 2, 0)],
     "D": [(2, 0, 0), (2, 0, 1)],
+    "D0": [(2, 0, 0)],
+    "B1": [(0, 0, 1)],
 }
 
 
@@ -68,6 +72,10 @@ def _view(net, name):
         return net.cell(2).branch(2).comp(0)
     if name == "D":
         return net.cell(2).branch(0)
+    if name == "D0":
+        return net.cell(2).branch(0).comp(0)
+    if name == "B1":
+        return net.cell(0).branch(0).comp(1)
     t, r = name[1], int(name[2])  # "EI1" -> rank 1 of Ionotropic
     return getattr(net, TYPE_NAME[t]).edge(r)
 
@@ -100,6 +108,15 @@ REQUESTS = [
     {"op": "clamp", "state": "HH_n", "view": "A", "series": [(0.3 + 0.1 * (np.arange(T) % 2)).tolist()]},
     {"op": "clamp", "state": "IonotropicSynapse_s", "view": "EI1", "series": [(0.9 - 0.2 * np.arange(T)).tolist()]},
     {"op": "clamp", "state": "v", "view": "B", "series": [(-66.0 - 0.5 * np.arange(T)).tolist()]},
+]
+
+# deletions through views (stored inputs only): what survives must keep acting on its own target
+DELETES = [
+    {"op": "delstim", "view": "D0"},
+    {"op": "delstim", "view": "A"},
+    {"op": "delclamp", "view": "C", "state": None},
+    {"op": "delclamp", "view": "B1", "state": "v"},
+    {"op": "delclamp", "view": "A", "state": "HH_n"},
 ]
 
 _cache = {}
@@ -160,6 +177,12 @@ def _apply(net, req, data_acc=None):
     if req["op"] == "record":
         v.record(req["state"], verbose=False)
         return
+    if req["op"] == "delstim":
+        v.delete_stimuli()
+        return
+    if req["op"] == "delclamp":
+        v.delete_clamps(req["state"]) if req["state"] else v.delete_clamps()
+        return
     arr = jnp.asarray(np.asarray(req["series"]))
     arr = arr[0] if arr.shape[0] == 1 else arr
     if req["op"] == "stim":
@@ -205,6 +228,13 @@ def _expected(order, hist, nsteps):
                 idxs = [_gidx(*c) for c in VIEWS[req["view"]]]
             for j, i in enumerate(idxs):
                 model["clamps"].append({"state": req["state"], "index": i, "values": ser[j if ser.shape[0] > 1 else 0]})
+        elif req["op"] == "delstim":
+            gone = {_gidx(*c) for c in VIEWS[req["view"]]}
+            model["stimuli"] = [s_ for s_ in model["stimuli"] if s_["comp"] not in gone]
+        elif req["op"] == "delclamp":
+            gone = {_gidx(*c) for c in VIEWS[req["view"]]}
+            model["clamps"] = [c_ for c_ in model["clamps"] if not (c_["index"] in gone and not c_["state"].startswith(("IonotropicSynapse", "TestSynapse"))
+                                                                    and (req["state"] is None or c_["state"] == req["state"]))]
     # truncate / pad inputs to nsteps
     for s in model["stimuli"]:
         cu = np.asarray(s["current"], float)
@@ -299,6 +329,11 @@ def run_history(order, hist, tmax_mode="none", data=False, backend="jaxley.stone
     full = hist + [{"op": "record", "state": "v", "view": "ALL"}]
     has_inputs = any(r["op"] in ("stim", "clamp") for r in hist)
     has_clamp = any(r["op"] == "clamp" for r in hist)
+    if any(r["op"].startswith("del") for r in hist):
+        has_inputs = bool(net.externals)
+        has_clamp = any(k != "i" for k in net.externals)
+        if sum(len(np.asarray(v)) for v in net.external_inds.values()) >= 2:
+            out["cover"].append("deleted_through_view_with_survivors")
     if tmax_mode == "none":
         if not has_inputs:
             kw, nsteps = {"t_max": (T - 1) * DT + DT / 2}, T
@@ -435,6 +470,23 @@ def explore(ctx):
     for a in inputs:
         for b in inputs:
             runs.append({"order": "ITI", "history": [a, b], "tmax": "none", "data": "mixed", "backend": "jaxley.stone"})
+    # inputs, then a deletion through a view, (then another input): ordered pairs of same-kind input requests + one deletion
+    stims = [r for r in REQUESTS if r["op"] == "stim"]
+    clamps = [r for r in REQUESTS if r["op"] == "clamp"]
+    for kind, reqs in (("delstim", stims), ("delclamp", clamps)):
+        for a in reqs:
+            for b in reqs:
+                if a is b:
+                    continue
+                for d in DELETES:
+                    if d["op"] != kind:
+                        continue
+                    runs.append({"order": "ITI", "history": [a, b, d], "tmax": "none", "data": False, "backend": "jaxley.stone"})
+        if ctx.tier != "quick":
+            for a, b, c in itertools.permutations(reqs, 3):
+                for d in DELETES:
+                    if d["op"] == kind:
+                        runs.append({"order": "ITI", "history": [a, b, d, c], "tmax": "none", "data": False, "backend": "jaxley.stone"})
     ctx.note("alphabet", len(REQUESTS))
     ctx.note("depth", depth)
     ctx.note("runs", len(runs))
